@@ -291,6 +291,8 @@ type Event struct {
 type World struct {
 	mu        sync.Mutex
 	inflight  map[int]int // thread -> resolutions / scope creations in flight
+	// CancelBuild cancels the context the collection is being built with (fault "cancel-build")
+	CancelBuild func()
 	Spec      *Spec
 	Insts     []*Inst
 	Calls     []*Call
@@ -681,6 +683,14 @@ func (w *World) Body(r *Reg, ft reflect.Type) func(args []reflect.Value) []refle
 		res := make([]reflect.Value, nout)
 		for i := 0; i < nout; i++ {
 			res[i] = reflect.Zero(ft.Out(i))
+		}
+		if fault == "cancel-build" {
+			// the constructor (or something running concurrently with it, e.g. a build timeout)
+			// cancels the context Build was started with; the constructor itself succeeds
+			if w.CancelBuild != nil {
+				w.CancelBuild()
+			}
+			fault = ""
 		}
 		if strings.HasPrefix(fault, "panic") {
 			finish("panic")
